@@ -39,6 +39,10 @@ func init() {
 			c.PositionOrder(ob5)
 			ob7 := c.R.Ob("C15.7", "origin/string-body", "the value of a string literal is its token text minus exactly one delimiter at each end", 1)
 			c.StringLiteralBody(ob7)
+			ob8 := c.R.Ob("C15.8", "origin/lexer-input", "the lexer reads exactly the text given to Parse", 1)
+			c.LexerInputIsTheText(ob8, c.Fn(ob8, relParser, "Parse"))
+			ob9 := c.R.Ob("C15.9", "numtext/N2-machine", "literal values are not built through 64-bit machine arithmetic", 0)
+			c.BoundedArithmeticOnNumerals(ob9, map[string]bool{relParser: true})
 			obm := c.R.Ob("C15.6", "mapping", "same-named fields are mapped to each other in composite literals of the parser", 0)
 			c.Mapping(obm, map[string]bool{relParser: true})
 		},
